@@ -211,3 +211,551 @@ Proof.
   intros H. eapply Permutation_NoDup; [apply get_parents_perm|].
   apply positional_nodup. now apply preds_nodup.
 Qed.
+
+(** ---- small list facts ---- *)
+Lemma NoDup_app_intro {A} (l1 l2 : list A) :
+  NoDup l1 -> NoDup l2 -> (forall x, In x l1 -> ~ In x l2) -> NoDup (l1 ++ l2).
+Proof.
+  induction l1 as [|a r IH]; intros H1 H2 H; simpl; [exact H2|].
+  inversion H1 as [|? ? Ha Hr]; subst. constructor.
+  - intros Hin. apply in_app_iff in Hin. destruct Hin as [Hin|Hin]; [contradiction|]. apply (H a); [now left | exact Hin].
+  - apply IH; [exact Hr | exact H2 |]. intros x Hx. apply H. now right.
+Qed.
+
+Lemma flat_map_ext_in {A B} (f g : A -> list B) : forall l,
+  (forall a, In a l -> f a = g a) -> flat_map f l = flat_map g l.
+Proof.
+  induction l as [|a r IH]; intros H; simpl; [reflexivity|].
+  rewrite (H a (or_introl eq_refl)), IH; [reflexivity|]. intros a' Ha'. apply H. now right.
+Qed.
+
+Lemma firstn_before_not_in n : forall l, ~ In n (firstn_before n l).
+Proof.
+  induction l as [|m r IH]; simpl; [tauto|].
+  destruct (String.eqb n m) eqn:E; [tauto|]. apply String.eqb_neq in E.
+  intros [H|H]; [congruence | contradiction].
+Qed.
+
+Lemma numbered_In e n : forall ps i, In e (numbered n ps i) -> e_dst e = n /\ In (e_src e) ps.
+Proof.
+  unfold numbered. induction ps as [|p r IH]; intros i H; simpl in H; [destruct H|].
+  destruct H as [<-|H]; [split; [reflexivity | now left]|].
+  destruct (IH _ H) as [H1 H2]. split; [exact H1 | now right].
+Qed.
+
+Lemma numbered_pairs n : forall ps i, map fst (numbered n ps i) = map (fun q => (q, n)) ps.
+Proof. unfold numbered. induction ps as [|p r IH]; intros i; simpl; [reflexivity | now rewrite IH]. Qed.
+
+Lemma preds_numbered_other n c ps i : c <> n -> preds (numbered n ps i) c = [].
+Proof.
+  intros Hne. apply preds_none. intros e He. apply numbered_In in He. destruct He as [-> _]. congruence.
+Qed.
+
+Lemma preds_numbered_pos n ps i : preds (numbered n ps i) n = pos_preds i ps.
+Proof. apply preds_numbered. Qed.
+
+(** ---- a cyclic augmented net is refused by the compiler ---- *)
+Lemma compile_topo_ok src outs g : compile src outs = Ok g -> topo_ok src = true.
+Proof.
+  intros H. unfold compile in H.
+  destruct (compile_outputs (s_nodes src)) as [cn|] eqn:Ec; simpl in H; [|discriminate].
+  fold (topo_ok src) in H. destruct (topo_ok src) eqn:Et; simpl in H; [reflexivity | discriminate].
+Qed.
+
+Lemma topo_ok_no_self_loop src u p :
+  topo_ok src = true -> In (u, u, p) (s_edges src) -> has u (s_nodes src) = true -> False.
+Proof.
+  intros Ht He Hu. unfold topo_ok in Ht. rewrite forallb_forall in Ht.
+  assert (Hin : In u (topo_order src)) by (apply topo_order_In_rev; now apply has_In).
+  specialize (Ht u Hin). rewrite forallb_forall in Ht.
+  specialize (Ht (u, p) (In_preds _ _ _ _ He)). cbn [fst] in Ht. apply mem_In in Ht.
+  exact (firstn_before_not_in u _ Ht).
+Qed.
+
+(** ---- one EAddNode step ---- *)
+Lemma fold_add_err n : forall (l : list name) e,
+  fold_left (fun r p => do mm <- r; add_edge_m mm p n None) l (Err e) = Err e.
+Proof. induction l as [|x l IHl]; intros e; simpl; auto. Qed.
+
+Lemma fold_parents_keeps n : forall ps m1 m2,
+  fold_left (fun r p => do mm <- r; add_edge_m mm p n None) ps (Ok m1) = Ok m2 ->
+  s_nodes m2 = s_nodes m1 /\ s_observed m2 = s_observed m1 /\
+  (forall e, In e (s_edges m1) -> e_dst e <> n -> In e (s_edges m2)).
+Proof.
+  induction ps as [|p r IH]; intros m1 m2 H; simpl in H.
+  - inversion H; subst. auto.
+  - destruct (add_edge_m m1 p n None) as [m1'|e] eqn:Ea; simpl in H; [|rewrite fold_add_err in H; discriminate].
+    unfold add_edge_m in Ea.
+    destruct (has n (s_nodes m1)); simpl in Ea; [|discriminate].
+    destruct (has p (s_nodes m1)); simpl in Ea; [|discriminate].
+    inversion Ea; subst m1'. clear Ea.
+    destruct (IH _ _ H) as [A [B C]]. simpl in A, B. split; [exact A|]. split; [exact B|].
+    intros e He Hd. apply C; [|exact Hd]. simpl. apply add_edge_keeps; [exact He | now right].
+Qed.
+
+Lemma add_step_keeps m n st ps m' :
+  step_model m (EAddNode 0 n st ps None) = Ok m' ->
+  has n (s_nodes m) = false /\ s_nodes m' = s_nodes m ++ [(n, st)] /\ s_observed m' = s_observed m /\
+  (forall e, In e (s_edges m) -> e_dst e <> n -> In e (s_edges m')).
+Proof.
+  intros H. simpl in H. unfold Edit.add_node in H.
+  destruct (has n (s_nodes m)) eqn:Eh; simpl in H; [discriminate|].
+  destruct (fold_left _ ps (Ok (with_nodes m (s_nodes m ++ [(n, st)])))) as [m2|] eqn:Ef; simpl in H; [|discriminate].
+  inversion H; subst m'. destruct (fold_parents_keeps _ _ _ _ Ef) as [A [B C]]. simpl in A, B, C. auto.
+Qed.
+
+Lemma add_step_shape m n st ps m' :
+  NoDup ps -> ~ In n ps -> (forall e, In e (s_edges m) -> e_dst e <> n) ->
+  step_model m (EAddNode 0 n st ps None) = Ok m' ->
+  s_edges m' = s_edges m ++ numbered n ps 0.
+Proof.
+  intros Hnd Hn H0 H. simpl in H. unfold Edit.add_node in H.
+  destruct (has n (s_nodes m)) eqn:Eh; simpl in H; [discriminate|].
+  destruct (fold_left _ ps (Ok (with_nodes m (s_nodes m ++ [(n, st)])))) as [m2|] eqn:Ef; simpl in H; [|discriminate].
+  inversion H; subst m'.
+  assert (He1 : s_edges (with_nodes m (s_nodes m ++ [(n, st)])) = s_edges m ++ numbered n [] 0) by (simpl; now rewrite app_nil_r).
+  destruct (fold_parents_fresh n ps [] _ m2 (s_edges m) Hnd Hn He1 H0 Ef) as [A _]. exact A.
+Qed.
+
+(** the invariants of [wfsrc] that concern nodes and edges only *)
+Record EdgeOK (m : snet) : Prop := {
+  eo_nodup : NoDup (map fst (s_nodes m));
+  eo_closed : forall e, In e (s_edges m) -> has (e_src e) (s_nodes m) = true /\ has (e_dst e) (s_nodes m) = true;
+  eo_pairs : NoDup (map fst (s_edges m))
+}.
+
+Lemma wfsrc_EdgeOK m : wfsrc m -> EdgeOK m.
+Proof. intros H. constructor; [exact (wf_nodup _ H) | exact (wf_edges _ H) | exact (wf_edge_nodup _ H)]. Qed.
+
+Lemma has_single {A} n (a : A) : has n [(n, a)] = true.
+Proof. unfold has. simpl. now rewrite String.eqb_refl. Qed.
+
+Lemma add_step_ok m n st ps m' :
+  EdgeOK m -> NoDup ps -> (forall q, In q ps -> has q (s_nodes m) = true) ->
+  step_model m (EAddNode 0 n st ps None) = Ok m' ->
+  EdgeOK m' /\ has n (s_nodes m) = false /\ s_nodes m' = s_nodes m ++ [(n, st)]
+  /\ s_edges m' = s_edges m ++ numbered n ps 0 /\ s_observed m' = s_observed m.
+Proof.
+  intros Hok Hnd Hps H.
+  destruct (add_step_keeps _ _ _ _ _ H) as [Hn [Hnodes [Hobs _]]].
+  assert (Hnps : ~ In n ps) by (intros Hin; rewrite (Hps n Hin) in Hn; discriminate).
+  assert (H0 : forall e, In e (s_edges m) -> e_dst e <> n).
+  { intros e He Heq. destruct (eo_closed _ Hok e He) as [_ Hd]. rewrite Heq, Hn in Hd. discriminate. }
+  pose proof (add_step_shape _ _ _ _ _ Hnd Hnps H0 H) as Hedges.
+  split; [|auto]. constructor.
+  - rewrite Hnodes, map_app. simpl. apply NoDup_app_snoc; [exact (eo_nodup _ Hok) | now apply has_false_In].
+  - intros e He. rewrite Hedges in He. rewrite Hnodes, !has_app. apply in_app_iff in He. destruct He as [He|He].
+    + destruct (eo_closed _ Hok e He) as [-> ->]. auto.
+    + apply numbered_In in He. destruct He as [-> Hs]. rewrite (Hps _ Hs), has_single. split; [reflexivity | apply orb_true_r].
+  - rewrite Hedges, map_app, numbered_pairs. apply NoDup_app_intro; [exact (eo_pairs _ Hok) | |].
+    + apply NoDup_map_inj_in; [|exact Hnd]. intros a b _ _ Heq. now inversion Heq.
+    + intros [u v] Hin Hin2. apply in_map_iff in Hin2. destruct Hin2 as [q [Heq _]]. inversion Heq; subst.
+      apply in_map_iff in Hin. destruct Hin as [e [Heq2 He]]. apply (H0 e He). destruct e as [[a b] c]. simpl in Heq2.
+      unfold e_dst. simpl. now inversion Heq2.
+Qed.
+
+(** ---- augmentation never removes a user edge (no hypothesis on the model) ---- *)
+Definition Keeps (m a : snet) : Prop :=
+  (forall k, has k (s_nodes m) = true -> has k (s_nodes a) = true) /\
+  (forall e, In e (s_edges m) -> has (e_dst e) (s_nodes m) = true -> In e (s_edges a)).
+
+Lemma Keeps_refl m : Keeps m m.
+Proof. split; auto. Qed.
+
+Lemma Keeps_trans m1 m2 m3 : Keeps m1 m2 -> Keeps m2 m3 -> Keeps m1 m3.
+Proof. intros [A B] [C D]. split; [auto|]. intros e He Hd. apply D; [now apply B | now apply A]. Qed.
+
+Lemma add_step_Keeps m n st ps m' : step_model m (EAddNode 0 n st ps None) = Ok m' -> Keeps m m'.
+Proof.
+  intros H. destruct (add_step_keeps _ _ _ _ _ H) as [Hn [Hnodes [_ Hk]]]. split.
+  - intros k Hk'. rewrite Hnodes, has_app, Hk'. reflexivity.
+  - intros e He Hd. apply Hk; [exact He|]. intros Heq. rewrite Heq, Hn in Hd. discriminate.
+Qed.
+
+Lemma add_dist_Keeps log : forall P m a, add_distribution_nodes m P log = Ok a -> Keeps m a.
+Proof.
+  induction P as [|p r IH]; intros m a H; cbn [add_distribution_nodes] in H.
+  - inversion H; subst. apply Keeps_refl.
+  - destruct (has p (s_nodes m)); cbn [negb] in H; [|discriminate].
+    destruct (step_model m _) as [m1|] eqn:Es; cbn [bind] in H; [|discriminate].
+    eapply Keeps_trans; [eapply add_step_Keeps; exact Es | now apply IH].
+Qed.
+
+Lemma augment_Keeps m P log a : augment m P log = Ok a -> Keeps m a.
+Proof.
+  unfold augment. intros H.
+  destruct (add_distribution_nodes m P log) as [m1|] eqn:E1; cbn [bind] in H; [|discriminate].
+  eapply Keeps_trans; [eapply add_dist_Keeps; exact E1 | eapply add_step_Keeps; exact H].
+Qed.
+
+(** a requested parameter that is its own positional parent makes the augmented net cyclic *)
+Lemma augment_no_self_parent m P log a p :
+  (forall e, In e (s_edges m) -> has (e_dst e) (s_nodes m) = true) ->
+  augment m P log = Ok a -> topo_ok a = true -> ~ In p (get_parents m p).
+Proof.
+  intros Hcl Ha Ht Hin. destruct (get_parents_edge _ _ _ Hin) as [i He].
+  destruct (augment_Keeps _ _ _ _ Ha) as [K1 K2].
+  pose proof (Hcl _ He) as Hd. unfold e_dst in Hd. simpl in Hd.
+  apply (topo_ok_no_self_loop a p (PInt i) Ht); [apply K2; [exact He | exact Hd] | now apply K1].
+Qed.
+
+(** ---- the exact shape of the augmented net ---- *)
+Definition dens_nodes (m : snet) (log : bool) (P : list name) : list (name * sstate) :=
+  map (fun p => (pdf_node log p, op_state (pdf_opid log (dist_id m p)))) P.
+
+Definition dens_edges (m : snet) (log : bool) (P : list name) : list edge :=
+  flat_map (fun p => numbered (pdf_node log p) (p :: get_parents m p) 0) P.
+
+Lemma add_dist_shape log : forall P m a,
+  EdgeOK m ->
+  (forall p, In p P -> has p (s_nodes m) = true) ->
+  (forall p, In p P -> ~ In p (get_parents m p)) ->
+  add_distribution_nodes m P log = Ok a ->
+  EdgeOK a /\ s_nodes a = s_nodes m ++ dens_nodes m log P /\ s_edges a = s_edges m ++ dens_edges m log P
+  /\ s_observed a = s_observed m /\ (forall p, In p P -> has (pdf_node log p) (s_nodes m) = false).
+Proof.
+  induction P as [|p r IH]; intros m a Hok Hhas Hself H; cbn [add_distribution_nodes] in H.
+  - inversion H; subst. unfold dens_nodes, dens_edges. simpl. rewrite !app_nil_r.
+    split; [exact Hok|]. repeat split. intros ? [].
+  - destruct (has p (s_nodes m)) eqn:Ehp; cbn [negb] in H; [|discriminate].
+    destruct (step_model m _) as [m1|] eqn:Es; cbn [bind] in H; [|discriminate].
+    assert (Hnd : NoDup (p :: get_parents m p)).
+    { constructor; [apply Hself; now left | apply get_parents_nodup; exact (eo_pairs _ Hok)]. }
+    assert (Hps : forall q, In q (p :: get_parents m p) -> has q (s_nodes m) = true).
+    { intros q [<-|Hq]; [exact Ehp|]. destruct (get_parents_edge _ _ _ Hq) as [i He].
+      exact (proj1 (eo_closed _ Hok _ He)). }
+    destruct (add_step_ok _ _ _ _ _ Hok Hnd Hps Es) as [Hok1 [Hfresh [Hn1 [He1 Ho1]]]].
+    assert (Hne : forall q, has q (s_nodes m) = true -> q <> pdf_node log p).
+    { intros q Hq ->. rewrite Hq in Hfresh. discriminate. }
+    assert (Hgp : forall q, has q (s_nodes m) = true -> get_parents m1 q = get_parents m q).
+    { intros q Hq. eapply get_parents_other_child; [exact He1 | now apply Hne]. }
+    assert (Hdi : forall q, has q (s_nodes m) = true -> dist_id m1 q = dist_id m q).
+    { intros q Hq. unfold dist_id. now rewrite Hn1, lookup_app_l. }
+    destruct (IH m1 a Hok1) as [A [B [C [D E]]]]; [ | | exact H | ].
+    + intros q Hq. rewrite Hn1, has_app, (Hhas q (or_intror Hq)). reflexivity.
+    + intros q Hq. rewrite Hgp by (apply Hhas; now right). apply Hself. now right.
+    + split; [exact A|]. split; [|split; [|split]].
+      * rewrite B, Hn1, <- app_assoc. unfold dens_nodes. cbn [map app]. do 2 f_equal.
+        apply map_ext_in. intros q Hq. now rewrite Hdi by (apply Hhas; now right).
+      * rewrite C, He1, <- app_assoc. unfold dens_edges. cbn [flat_map]. do 2 f_equal.
+        apply flat_map_ext_in. intros q Hq. now rewrite Hgp by (apply Hhas; now right).
+      * congruence.
+      * intros q [<-|Hq]; [exact Hfresh|]. pose proof (E q Hq) as Hq1. rewrite Hn1, has_app in Hq1.
+        now apply orb_false_iff in Hq1.
+Qed.
+
+Lemma has_dens_nodes m log P p : In p P -> has (pdf_node log p) (dens_nodes m log P) = true.
+Proof.
+  intros Hin. unfold has, dens_nodes.
+  rewrite (lookup_map_key (pdf_node log) (fun p => op_state (pdf_opid log (dist_id m p))) (pdf_node_inj log) p P Hin).
+  reflexivity.
+Qed.
+
+Record Augmented (m : snet) (P : list name) (log : bool) (a : snet) : Prop := {
+  au_ok : EdgeOK a;
+  au_nodes : s_nodes a = s_nodes m ++ dens_nodes m log P ++ [(joint_node, op_state "reduce"%string)];
+  au_edges : s_edges a = s_edges m ++ dens_edges m log P ++ numbered joint_node (map (pdf_node log) P) 0;
+  au_observed : s_observed a = s_observed m;
+  au_fresh : forall p, In p P -> has (pdf_node log p) (s_nodes m) = false;
+  au_joint_fresh : has joint_node (s_nodes m) = false;
+  au_joint_ne : forall p, In p P -> joint_node <> pdf_node log p
+}.
+
+Lemma augment_shape m P log a :
+  EdgeOK m -> NoDup P ->
+  (forall p, In p P -> has p (s_nodes m) = true) ->
+  (forall p, In p P -> ~ In p (get_parents m p)) ->
+  augment m P log = Ok a -> Augmented m P log a.
+Proof.
+  intros Hok HndP Hhas Hself H. unfold augment in H.
+  destruct (add_distribution_nodes m P log) as [m1|] eqn:E1; cbn [bind] in H; [|discriminate].
+  destruct (add_dist_shape log P m m1 Hok Hhas Hself E1) as [Hok1 [Hn1 [He1 [Ho1 Hfresh]]]].
+  assert (Hnd : NoDup (map (pdf_node log) P)).
+  { apply NoDup_map_inj_in; [|exact HndP]. intros x y _ _. apply pdf_node_inj. }
+  assert (Hps : forall q, In q (map (pdf_node log) P) -> has q (s_nodes m1) = true).
+  { intros q Hq. apply in_map_iff in Hq. destruct Hq as [p [<- Hp]].
+    rewrite Hn1, has_app, (has_dens_nodes m log P p Hp). apply orb_true_r. }
+  destruct (add_step_ok _ _ _ _ _ Hok1 Hnd Hps H) as [Hok2 [Hjf [Hn2 [He2 Ho2]]]].
+  rewrite Hn1, has_app in Hjf. apply orb_false_iff in Hjf. destruct Hjf as [Hj1 Hj2].
+  constructor.
+  - exact Hok2.
+  - now rewrite Hn2, Hn1, <- app_assoc.
+  - now rewrite He2, He1, <- app_assoc.
+  - congruence.
+  - exact Hfresh.
+  - exact Hj1.
+  - intros p Hp Heq. rewrite Heq, (has_dens_nodes m log P p Hp) in Hj2. discriminate.
+Qed.
+
+(** ---- nodes and predecessors of the augmented net ---- *)
+Section Aug.
+  Variables (m : snet) (P : list name) (log : bool) (a : snet).
+  Hypothesis Hm : EdgeOK m.
+  Hypothesis HP : NoDup P.
+  Hypothesis Ha : Augmented m P log a.
+
+  Lemma dens_names : map fst (dens_nodes m log P) = map (pdf_node log) P.
+  Proof. unfold dens_nodes. rewrite map_map. reflexivity. Qed.
+
+  Lemma joint_not_dens : has joint_node (dens_nodes m log P) = false.
+  Proof.
+    apply has_false_In. rewrite dens_names. intros Hin. apply in_map_iff in Hin. destruct Hin as [p [Heq Hp]].
+    exact (au_joint_ne _ _ _ _ Ha p Hp (eq_sym Heq)).
+  Qed.
+
+  Lemma aug_lookup_old k : has k (s_nodes m) = true -> lookup k (s_nodes a) = lookup k (s_nodes m).
+  Proof. intros H. now rewrite (au_nodes _ _ _ _ Ha), lookup_app_l. Qed.
+
+  Lemma aug_lookup_dens p : In p P ->
+    lookup (pdf_node log p) (s_nodes a) = Some (op_state (pdf_opid log (dist_id m p))).
+  Proof.
+    intros Hp. rewrite (au_nodes _ _ _ _ Ha), lookup_app_r by exact (au_fresh _ _ _ _ Ha p Hp).
+    rewrite lookup_app_l by now apply has_dens_nodes.
+    exact (lookup_map_key (pdf_node log) (fun p => op_state (pdf_opid log (dist_id m p))) (pdf_node_inj log) p P Hp).
+  Qed.
+
+  Lemma aug_lookup_joint : lookup joint_node (s_nodes a) = Some (op_state "reduce"%string).
+  Proof.
+    rewrite (au_nodes _ _ _ _ Ha), lookup_app_r by exact (au_joint_fresh _ _ _ _ Ha).
+    rewrite lookup_app_r by exact joint_not_dens. reflexivity.
+  Qed.
+
+  Lemma no_edge_into_fresh n : has n (s_nodes m) = false -> preds (s_edges m) n = [].
+  Proof.
+    intros Hn. apply preds_none. intros e He Heq. destruct (eo_closed _ Hm e He) as [_ Hd].
+    rewrite Heq, Hn in Hd. discriminate.
+  Qed.
+
+  Lemma aug_preds_joint : preds (s_edges a) joint_node = pos_preds 0 (map (pdf_node log) P).
+  Proof.
+    rewrite (au_edges _ _ _ _ Ha), !preds_app, (no_edge_into_fresh _ (au_joint_fresh _ _ _ _ Ha)).
+    rewrite preds_numbered_pos. cbn [app].
+    rewrite (preds_none (dens_edges m log P)); [reflexivity|].
+    intros e He Heq. unfold dens_edges in He. apply in_flat_map in He. destruct He as [p [Hp He]].
+    apply numbered_In in He. destruct He as [Hd _]. rewrite Hd in Heq.
+    exact (au_joint_ne _ _ _ _ Ha p Hp (eq_sym Heq)).
+  Qed.
+
+  Lemma aug_preds_dens p : In p P ->
+    preds (s_edges a) (pdf_node log p) = pos_preds 0 (p :: get_parents m p).
+  Proof.
+    intros Hp.
+    rewrite (au_edges _ _ _ _ Ha), !preds_app, (no_edge_into_fresh _ (au_fresh _ _ _ _ Ha p Hp)).
+    rewrite (preds_numbered_other joint_node) by (intros Heq; exact (au_joint_ne _ _ _ _ Ha p Hp (eq_sym Heq))).
+    rewrite app_nil_r. cbn [app]. unfold dens_edges.
+    rewrite preds_flat_map, (flat_map_single _ p P HP Hp).
+    - apply preds_numbered_pos.
+    - intros b _ Hne. apply preds_numbered_other. intros Heq. apply pdf_node_inj in Heq. congruence.
+  Qed.
+
+  (** the augmented net of a well-formed model is well formed *)
+  Lemma aug_wfsrc : wfsrc m -> wfsrc a.
+  Proof.
+    intros Hwf. pose proof (au_ok _ _ _ _ Ha) as Hok. constructor.
+    - exact (eo_nodup _ Hok).
+    - exact (eo_closed _ Hok).
+    - exact (eo_pairs _ Hok).
+    - intros n Hn. rewrite (au_nodes _ _ _ _ Ha), !has_app, (wf_reserved _ Hwf n Hn). cbn [orb].
+      apply orb_false_iff. split.
+      + apply has_false_In. rewrite dens_names. intros Hin. apply in_map_iff in Hin. destruct Hin as [p [<- _]].
+        exact (pdf_node_not_reserved _ _ Hn).
+      + unfold has. cbn [lookup]. destruct (String.eqb n joint_node) eqn:E; [|reflexivity].
+        apply String.eqb_eq in E. subst n. exfalso. exact (joint_not_reserved Hn).
+    - intros n st Hin Ho. rewrite (au_nodes _ _ _ _ Ha) in Hin. apply in_app_iff in Hin. destruct Hin as [Hin|Hin].
+      + exact (wf_obs_output _ Hwf n st Hin Ho).
+      + apply in_app_iff in Hin. destruct Hin as [Hin|[Hin|[]]].
+        * unfold dens_nodes in Hin. apply in_map_iff in Hin. destruct Hin as [p [Heq _]]. inversion Heq; subst. discriminate.
+        * inversion Hin; subst. discriminate.
+    - rewrite (au_observed _ _ _ _ Ha). exact (wf_observed_nodup _ Hwf).
+    - intros k Hk. rewrite (au_observed _ _ _ _ Ha) in Hk. pose proof (wf_observed_nodes _ Hwf k Hk) as Hf.
+      destruct (flag_true _ _ _ Hf) as [st [Hl Ho]]. unfold flag, sstate_of.
+      rewrite aug_lookup_old by (unfold has; now rewrite Hl). now rewrite Hl.
+  Qed.
+End Aug.
+
+(** ---- the dataflow meaning on the augmented net ---- *)
+Lemma den_op_node src W f n id :
+  lookup n W = None -> lookup n (s_nodes src) = Some (op_state id) ->
+  den (S f) src W false n =
+  match Denote.all_some (map (fun pp : name * param => den f src W false (fst pp)) (preds (s_edges src) n)) with
+  | Some vs => Some (mk_call (OpUser id) (combine (map snd (preds (s_edges src) n)) vs))
+  | None => None
+  end.
+Proof.
+  intros HW Hl. rewrite (den_plain_step src W f n _ Hl), HW. unfold op_state.
+  cbn [s_output s_uses_observed s_observable s_uses_batch_size s_uses_meta s_stochastic s_opid andb negb].
+  destruct (Denote.all_some _); [|reflexivity]. cbn [app]. now rewrite app_nil_r.
+Qed.
+
+Lemma all_some_pointwise {A B} (f g : A -> option B) : forall l bs,
+  Denote.all_some (map g l) = Some bs -> (forall a v, In a l -> g a = Some v -> f a = Some v) ->
+  Denote.all_some (map f l) = Some bs.
+Proof.
+  induction l as [|a r IH]; intros bs H Hp; simpl in *; [exact H|].
+  destruct (g a) as [v|] eqn:Eg; [|discriminate]. rewrite (Hp a v (or_introl eq_refl) Eg).
+  destruct (Denote.all_some (map g r)) as [r'|] eqn:Er; [|discriminate].
+  rewrite (IH r' eq_refl); [exact H|]. intros a' v' Ha'. apply Hp. now right.
+Qed.
+
+Section Meaning.
+  Variables (m : snet) (P : list name) (log : bool) (a : snet) (x : list (name * value)).
+  Hypothesis Hm : EdgeOK m.
+  Hypothesis HP : NoDup P.
+  Hypothesis Ha : Augmented m P log a.
+  Hypothesis Hx : forall k, In k (map fst x) -> has k (s_nodes m) = true.
+
+  Lemma fresh_not_supplied n : has n (s_nodes m) = false -> lookup n x = None.
+  Proof. intros Hn. apply lookup_None_iff. intros Hin. rewrite (Hx n Hin) in Hn. discriminate. Qed.
+
+  (** an argument of a density node: the supplied column, or the constant *)
+  Lemma den_arg f q v : has q (s_nodes m) = true -> arg_value m x q = Some v -> den (S f) a x false q = Some v.
+  Proof.
+    intros Hq Hv. apply has_lookup in Hq. destruct Hq as [st Hst].
+    assert (Hst' : lookup q (s_nodes a) = Some st).
+    { rewrite (aug_lookup_old m P log a Ha) by (unfold has; now rewrite Hst). exact Hst. }
+    rewrite (den_plain_step a x f q st Hst'). unfold arg_value in Hv.
+    destruct (lookup q x); [exact Hv|]. rewrite Hst in Hv. now rewrite Hv.
+  Qed.
+
+  (** a density node means the conditional density factor of its parameter *)
+  Lemma den_density f p fp : In p P -> has p (s_nodes m) = true ->
+    factor m log x p = Some fp -> den (S (S f)) a x false (pdf_node log p) = Some fp.
+  Proof.
+    intros Hp Hhp Hf.
+    rewrite (den_op_node a x (S f) _ _ (fresh_not_supplied _ (au_fresh _ _ _ _ Ha p Hp)) (aug_lookup_dens m P log a Ha p Hp)).
+    rewrite (aug_preds_dens m P log a Hm HP Ha p Hp), pos_preds_snd.
+    rewrite (all_some_map_map (den (S f) a x false) fst), pos_preds_fst.
+    unfold factor in Hf. destruct (lookup p x) as [xp|] eqn:Exp; [|discriminate].
+    rewrite all_some_same in Hf.
+    destruct (Denote.all_some (map (arg_value m x) (get_parents m p))) as [args|] eqn:Eargs; [|discriminate].
+    inversion Hf; subst fp. clear Hf.
+    assert (Hall : Denote.all_some (map (arg_value m x) (p :: get_parents m p)) = Some (xp :: args)).
+    { cbn [map Denote.all_some]. unfold arg_value at 1. now rewrite Exp, Eargs. }
+    rewrite (all_some_pointwise (den (S f) a x false) (arg_value m x) _ _ Hall).
+    - rewrite mk_call_positional; [reflexivity|].
+      apply all_some_length in Hall. now rewrite map_length in Hall.
+    - intros q v Hq Hv. apply den_arg; [|exact Hv]. destruct Hq as [<-|Hq]; [exact Hhp|].
+      destruct (get_parents_edge _ _ _ Hq) as [i He]. exact (proj1 (eo_closed _ Hm _ He)).
+  Qed.
+
+  (** the joint node means the reduce call over the factors, in request order *)
+  Lemma den_joint f fs : (forall p, In p P -> has p (s_nodes m) = true) ->
+    Prior.all_some (map (factor m log x) P) = Some fs ->
+    den (S (S (S f))) a x false joint_node = Some (VApp (OpUser "reduce"%string) fs []).
+  Proof.
+    intros Hhas Hfs. rewrite all_some_same in Hfs.
+    rewrite (den_op_node a x (S (S f)) _ _ (fresh_not_supplied _ (au_joint_fresh _ _ _ _ Ha)) (aug_lookup_joint m P log a Ha)).
+    rewrite (aug_preds_joint m P log a Hm Ha), pos_preds_snd.
+    rewrite (all_some_map_map (den (S (S f)) a x false) fst), pos_preds_fst, map_map.
+    rewrite (all_some_pointwise (fun p => den (S (S f)) a x false (pdf_node log p)) (factor m log x) _ _ Hfs).
+    - rewrite mk_call_positional; [reflexivity|].
+      apply all_some_length in Hfs. now rewrite !map_length in *.
+    - intros p fp Hp Hf. apply den_density; auto.
+  Qed.
+End Meaning.
+
+(** ---- decoding the request check ---- *)
+Lemma nodup_names_sound l : nodup_names l = true -> NoDup l.
+Proof.
+  induction l as [|a r IH]; cbn [nodup_names]; intros H; [constructor|].
+  apply andb_true_iff in H. destruct H as [H1 H2]. constructor; [|now apply IH].
+  intros Hin. apply mem_In in Hin. rewrite Hin in H1. discriminate.
+Qed.
+
+Lemma wf_request_inv m P : wf_request m P = true ->
+  NoDup P /\
+  (forall p, In p P -> has p (s_nodes m) = true) /\
+  (forall p q, In p P -> In q (get_parents m p) ->
+     In q P \/ exists sq v, lookup q (s_nodes m) = Some sq /\ s_output sq = Some v).
+Proof.
+  unfold wf_request. intros H.
+  apply andb_true_iff in H. destruct H as [H H3]. apply andb_true_iff in H. destruct H as [H1 _].
+  rewrite forallb_forall in H3. split; [now apply nodup_names_sound|]. split.
+  - intros p Hp. specialize (H3 p Hp). unfold has. destruct (lookup p (s_nodes m)); [reflexivity | discriminate].
+  - intros p q Hp Hq. specialize (H3 p Hp). destruct (lookup p (s_nodes m)) as [st|]; [|discriminate].
+    apply andb_true_iff in H3. destruct H3 as [_ H3]. rewrite forallb_forall in H3. specialize (H3 q Hq).
+    apply orb_true_iff in H3. destruct H3 as [H3|H3]; [left; now apply mem_In|]. right.
+    destruct (lookup q (s_nodes m)) as [sq|]; [|discriminate].
+    destruct (s_output sq) as [v|] eqn:Eo; [|discriminate]. eauto.
+Qed.
+
+Lemma generate_topo_ok src outs W r : generate src outs W = Ok r -> topo_ok src = true.
+Proof.
+  unfold generate. intros H. destruct (compile src outs) as [g|] eqn:Ec; cbn [bind] in H; [|discriminate].
+  exact (compile_topo_ok _ _ _ Ec).
+Qed.
+
+(** The specification is total on a well-formed request whose parameters are all supplied. *)
+Lemma joint_factors_total m P log x :
+  wf_request m P = true -> (forall p, In p P -> In p (map fst x)) ->
+  exists fs, Prior.all_some (map (factor m log x) P) = Some fs.
+Proof.
+  intros Hreq Hsup. destruct (wf_request_inv _ _ Hreq) as [_ [_ Hpar]].
+  rewrite all_some_same. apply all_some_total. intros p Hp. unfold factor.
+  destruct (In_lookup _ _ (Hsup p Hp)) as [xp ->].
+  rewrite all_some_same.
+  destruct (all_some_total (arg_value m x) (get_parents m p)) as [args ->]; [|eauto].
+  intros q Hq. unfold arg_value. destruct (Hpar p q Hp Hq) as [HqP | [sq [v [Hl Ho]]]].
+  - destruct (In_lookup _ _ (Hsup q HqP)) as [xq ->]. eauto.
+  - destruct (lookup q x); [eauto|]. rewrite Hl. eauto.
+Qed.
+
+(** ---- the composition ---- *)
+(** For EVERY well-formed model and every well-formed request: whatever the modelled
+    ModelPrior._evaluate_pdf returns is the reduce of the conditional density factors.
+
+    Hypotheses on the supplied point [x]: its columns are distinct, each is a node of the user's
+    model (so none is a density node, the joint node or a runtime node), and every requested
+    parameter has a column.  Freshness of the names "_p_pdf" / "_joint" and acyclicity are NOT
+    assumed: [evaluate] fails (add_node raises on an existing name, the compiler refuses a cycle)
+    when they do not hold. *)
+Theorem evaluate_is_joint_spec_gen m P log x t :
+  wfsrc m ->
+  wf_request m P = true ->
+  NoDup (map fst x) ->
+  (forall k, In k (map fst x) -> has k (s_nodes m) = true) ->
+  (forall p, In p P -> In p (map fst x)) ->
+  evaluate m P log x = Ok t ->
+  joint_spec m P log x = Some t.
+Proof.
+  intros Hwf Hreq Hxnd Hxm Hsup Hev.
+  destruct (wf_request_inv _ _ Hreq) as [HP [Hhas Hpar]].
+  pose proof (wfsrc_EdgeOK _ Hwf) as Hm.
+  unfold evaluate in Hev. destruct (augment m P log) as [a|] eqn:Eaug; cbn [bind] in Hev; [|discriminate].
+  unfold evaluate_in in Hev.
+  destruct (generate a [joint_node] x) as [[out lg]|] eqn:Eg; cbn [bind fst] in Hev; [|discriminate].
+  destruct (lookup joint_node out) as [v|] eqn:Ev; [|discriminate].
+  destruct (interp_reduce log v) as [t'|] eqn:Ei; [|discriminate]. inversion Hev; subst t'. clear Hev.
+  (* the augmented net is acyclic, hence no requested parameter is its own parent *)
+  pose proof (generate_topo_ok _ _ _ _ Eg) as Ht.
+  assert (Hself : forall p, In p P -> ~ In p (get_parents m p)).
+  { intros p _. apply (augment_no_self_parent m P log a p); [|exact Eaug | exact Ht].
+    intros e He. exact (proj2 (wf_edges _ Hwf e He)). }
+  pose proof (augment_shape m P log a Hm HP Hhas Hself Eaug) as Ha.
+  pose proof (aug_wfsrc m P log a Ha Hwf) as Hwfa.
+  (* generate returns the dataflow meaning of the joint node *)
+  assert (Hxi : forall k, In k (map fst x) -> ~ In k inames).
+  { intros k Hk Hi. pose proof (Hxm k Hk) as Hk'. rewrite (wf_reserved _ Hwf k Hi) in Hk'. discriminate. }
+  assert (Hden : den_name a x joint_node = Some v).
+  { apply (generate_sound a [joint_node] x out lg Hwfa Hxnd Hxi Eg joint_node v (lookup_In_pair _ _ _ Ev)).
+    left. unfold has. now rewrite (aug_lookup_joint m P log a Ha). }
+  (* which is the reduce call over the factors *)
+  destruct (joint_factors_total m P log x Hreq Hsup) as [fs Hfs].
+  unfold den_name, sstate_of in Hden. rewrite (aug_lookup_joint m P log a Ha) in Hden.
+  assert (Hfuel : exists f, den_fuel a = S (S (S f))) by (exists (2 * List.length (s_nodes a)); unfold den_fuel; lia).
+  destruct Hfuel as [f Hfuel]. rewrite Hfuel in Hden.
+  rewrite (den_joint m P log a x Hm HP Ha Hxm f fs Hhas Hfs) in Hden. inversion Hden; subst v. clear Hden.
+  unfold joint_spec. rewrite Hfs. exact Ei.
+Qed.
+
+(** The form of the brief: the supplied columns are exactly the requested parameters. *)
+Theorem evaluate_is_joint_spec m P log x t :
+  wfsrc m ->
+  wf_request m P = true ->
+  map fst x = P ->
+  evaluate m P log x = Ok t ->
+  joint_spec m P log x = Some t.
+Proof.
+  intros Hwf Hreq Hx Hev. destruct (wf_request_inv _ _ Hreq) as [HP [Hhas _]].
+  apply evaluate_is_joint_spec_gen; try assumption; rewrite Hx; auto.
+Qed.
